@@ -26,7 +26,7 @@ ASSUMPTIONS = [
     "extra frames of the kind a handshake step is waiting for are not injected (the client cannot tell them from the answer)",
     "consoles are self-consistent: AT4 group bitmaps and ranges only name groups that the names answer lists",
 ]
-PROBES = ["c09.silent", "c09.extras", "c09.slow_connect", "c09.zero_zones", "c09.at4_range", "c09.at4_single", "c09.multi_ac"]
+PROBES = ["c09.silent_after_connect_delay", "c09.silent", "c09.extras", "c09.slow_connect", "c09.zero_zones", "c09.at4_range", "c09.at4_single", "c09.multi_ac"]
 
 
 STRUCTURAL = {
@@ -119,6 +119,14 @@ def generate(rng, index: int, tier: str) -> dict:
         k = rng.randrange(len(hs))
         expect["silent_step"] = k
         tl.append({"at": 0.0, "op": "console.mute", "kinds": hs[k:] if rng.random() < 0.5 else [hs[k]]})
+        r = rng.random()
+        if r < 0.35:
+            # ... behind a connection that took its time: the five seconds still count from the init() call
+            knobs["fates"] = [{"kind": "accept", "latency": rng.choice([0.125, 0.5, 1.5, 3.0, 4.5])}]
+            expect["silent_after_connect_delay"] = True
+        elif r < 0.5:
+            knobs["fates"] = [{"kind": rng.choice(["refuse", "unreachable"]), "latency": rng.choice([0.0, 0.125])}, {"kind": "accept", "latency": rng.choice([0.0, 0.5])}]
+            expect["silent_after_connect_delay"] = True
     elif cls == "slow":
         lat = G.pick_time(rng, 3.0, 8.0, anchors=[5.0])
         # keep a margin around the deadline: the verdict hinges on which side
@@ -151,6 +159,8 @@ def execute(sc: dict) -> dict:
     inst = sc["installation"]
     if cls == "silent":
         probes["c09.silent"] = 1
+    if exp.get("silent_after_connect_delay"):
+        probes["c09.silent_after_connect_delay"] = 1
     if cls == "extras":
         probes["c09.extras"] = 1
     if cls == "slow":
